@@ -177,3 +177,301 @@ class LiteralValue(Harness):
 
 def harnesses(tier):
     return [LiteralValue(DEC_SHAPES, 'literal.decimal_shapes'), LiteralValue(RADIX_SHAPES, 'literal.radix_shapes')]
+
+
+# ============================================================================================================
+# Precedence and associativity: real parser (`parse_expr`) + real evaluator on operator sequences with symbolic
+# operand values, against an independent evaluation of the same token list under the documented grammar.
+
+class RepeatEof:
+    """token source: the given tokens, then Eof forever (like the real TokenIterator)"""
+    is_model = True
+
+    def __init__(self, toks, eof):
+        self.toks = list(toks)
+        self.pos = 0
+        self.eof = eof
+
+    def dup(self):
+        r = RepeatEof(self.toks, self.eof)
+        r.pos = self.pos
+        return r
+
+    def next(self, ex):
+        if self.pos < len(self.toks):
+            t = self.toks[self.pos]
+            self.pos += 1
+            return some(ex, dup(t))
+        return some(ex, dup(self.eof))
+
+
+BIN = ['+', '-', '*', '/', '|', '', '^', 'mod']
+
+
+class Oracle:
+    """recursive descent over the same token list, written from the manual's rules:
+       + -  <  * / mod (left to right)  <  juxtaposition  <  |  <  ^ (right assoc)  <  unary sign  <  term"""
+
+    def __init__(self, toks, env):
+        self.t = toks
+        self.i = 0
+        self.env = env
+        self.defined = []
+
+    def peek(self):
+        return self.t[self.i] if self.i < len(self.t) else None
+
+    def take(self):
+        x = self.peek()
+        self.i += 1
+        return x
+
+    def expr(self):
+        v = self.div()
+        while self.peek() in ('+', '-'):
+            op = self.take()
+            r = self.div()
+            v = v + r if op == '+' else v - r
+        return v
+
+    def div(self):
+        v = self.juxt()
+        while self.peek() in ('*', '/', 'mod'):
+            op = self.take()
+            r = self.juxt()
+            if op == '*':
+                v = v * r
+            elif op == '/':
+                self.defined.append(r != 0)
+                v = v / r
+            else:
+                self.defined.append(r != 0)
+                q = v / r
+                v = v - r * z3.ToReal(z3.If(q >= 0, z3.ToInt(q), -z3.ToInt(-q)))
+        return v
+
+    def juxt(self):
+        v = self.frac()
+        while self.peek() is not None and self.peek() not in ('+', '-', '*', '/', 'mod', ')', '|', '^'):
+            v = v * self.frac()
+        return v
+
+    def frac(self):
+        v = self.pow()
+        if self.peek() == '|':
+            self.take()
+            r = self.pow()
+            self.defined.append(r != 0)
+            v = v / r
+        return v
+
+    def pow(self):
+        v = self.term()
+        if self.peek() == '^':
+            self.take()
+            e = self.pow_exponent()
+            if e >= 0:
+                r = z3.RealVal(1)
+                for _ in range(e):
+                    r = r * v
+                return r
+            self.defined.append(v != 0)
+            r = z3.RealVal(1)
+            for _ in range(-e):
+                r = r * v
+            return 1 / r
+        return v
+
+    def pow_exponent(self):
+        """exponents are integer literals (possibly signed, possibly a tower)"""
+        t = self.take()
+        sign = 1
+        while t in ('-', '+'):
+            sign = -sign if t == '-' else sign
+            t = self.take()
+        e = int(t)
+        if self.peek() == '^':
+            self.take()
+            e = e ** self.pow_exponent()
+        return sign * e
+
+    def term(self):
+        t = self.take()
+        if t == '-':
+            return -self.term()
+        if t == '+':
+            return self.term()
+        if t == '(':
+            v = self.expr()
+            assert self.take() == ')'
+            return v
+        if isinstance(t, str) and t.isdigit():
+            return z3.RealVal(int(t))
+        return self.env[t]
+
+
+def gen_sequences(nleaves, ops, with_parens):
+    import itertools
+    names = ['a', 'b', 'c', 'd'][:nleaves]
+    out = []
+    for combo in itertools.product(ops, repeat=nleaves - 1):
+        toks = []
+        ok = True
+        for i, n in enumerate(names):
+            if i > 0:
+                op = combo[i - 1]
+                if op:
+                    toks.append(op)
+                if op == '^':
+                    toks.append('2' if i % 2 else '3')
+                    continue
+            toks.append(n)
+        out.append(toks)
+        if with_parens and nleaves == 3:
+            # parenthesise the right pair
+            t2 = []
+            k = 0
+            first_op_seen = False
+            out.append(_paren_right(names, combo))
+    uniq = []
+    seen = set()
+    for t in out:
+        if t is None:
+            continue
+        if t.count('|') > 1:
+            continue      # `a|b|c` is not covered by the manual (rink rejects it); outside
+        if 'mod' in t and ('/' in t[:t.index('mod')] or '|' in t[:t.index('mod')]) and '(' not in t:
+            continue      # remainder of a symbolic quotient: z3 does not decide it within the budget; outside (stated)
+
+        key = ' '.join(t)
+        if key not in seen:
+            seen.add(key)
+            uniq.append(t)
+    return uniq
+
+
+def _paren_right(names, combo):
+    if '^' in combo:
+        return None
+    toks = [names[0]]
+    if combo[0]:
+        toks.append(combo[0])
+    toks.append('(')
+    toks.append(names[1])
+    if combo[1]:
+        toks.append(combo[1])
+    toks.append(names[2])
+    toks.append(')')
+    return toks
+
+
+TOKMAP = {'+': 'Plus', '-': 'Minus', '*': 'Asterisk', '/': 'Slash', '|': 'Pipe', '^': 'Caret', 'mod': 'KeywordMod', '(': 'LPar', ')': 'RPar'}
+
+
+class Precedence(Harness):
+    props = ('C01', 'C04')
+    entry_name = 'parse_expr ; eval_expr'
+    stubs = (LOOKUP_STUB, SHOW_STUB)
+    loop_bound = 40
+    _concrete = None
+
+    def __init__(self, nleaves, name, unary=False):
+        self.nleaves = nleaves
+        self.name = name
+        self.unary = unary
+        seqs = gen_sequences(nleaves, BIN, True)
+        if unary:
+            seqs = [['-'] + s for s in gen_sequences(2, BIN, False)] + [[s[0], s[1], '-'] + s[2:] for s in gen_sequences(2, ['+', '-', '*', '/', '^'], False) if len(s) == 3]
+        self.seqs = seqs
+        self.describe = ('%d operator sequences over %d operands (operators + - * / | juxtaposition ^ mod, parentheses%s): the real parser and '
+                         'evaluator against an independent evaluation under the manual\'s precedence and associativity; operand values symbolic') % (
+            len(seqs), nleaves, ', unary minus' if unary else '')
+        self.bounds = ['expressions of %d operands; exponents after ^ are the literals 2 / 3; operands dimensionless' % nleaves,
+                       'excluded: chained `a|b|c`, and `mod` whose left operand is an unparenthesised quotient']
+        self.expect_classes = ['Result::Ok']
+
+    def build(self, ex, I):
+        seq = self.seqs[ex.choose(len(self.seqs), 'token sequence')]
+        env = {n: I.real(n) for n in ('a', 'b', 'c', 'd')}
+        ex.env['units'] = {n: number(rational(v), dim({})) for n, v in env.items()}
+        toks = []
+        for t in seq:
+            if t in TOKMAP:
+                toks.append(variant(ex, 'Token', TOKMAP[t]))
+            elif t.isdigit():
+                toks.append(variant(ex, 'Token', 'Decimal', [t, none(ex), none(ex)]))
+            else:
+                toks.append(variant(ex, 'Token', 'Ident', [t]))
+        from mirsym.lib import PeekableV
+        it = PeekableV(RepeatEof(toks, variant(ex, 'Token', 'Eof')))
+        return [it], {'seq': seq, 'env': env}
+
+    def entry(self, ex, args, ctx):
+        e = ex.call(None, 'parsing::text_query::parse_expr', [ref(args[0])])
+        rest = args[0].next(ex)
+        ctx['rest'] = deref_all(rest.fields[0]).vname
+        return ex.call(None, 'runtime::eval::eval_expr', [ref(Opaque('Context')), ref(e)])
+
+    def post(self, ex, ctx, outcome):
+        o = Oracle(ctx['seq'], {k: zreal(v) for k, v in ctx['env'].items()})
+        want = o.expr()
+        defined = z3.And(*o.defined) if o.defined else z3.BoolVal(True)
+        r = deref_all(outcome[1])
+        txt = ' '.join(ctx['seq'])
+        obs = [('the parser consumes the whole of `%s`' % txt, ctx['rest'] == 'Eof')]
+        if is_err(r):
+            obs.append(('`%s` fails only where a division is by zero' % txt, z3.Not(defined)))
+            return obs
+        v = deref_all(payload(r))
+        val, d = number_parts(v.fields[0])
+        kind, x = numeric_parts(val)
+        obs.append(('`%s` is defined' % txt, defined))
+        obs.append(('`%s` stays rational' % txt, kind == 'rational'))
+        if kind == 'rational':
+            obs.append(('`%s` = value under the manual\'s precedence' % txt, z3.Implies(defined, zreal(x) == want)))
+        return obs
+
+    def case(self, ctx, vals, label):
+        c = Harness.case(self, ctx, vals, label)
+        c['inputs']['seq'] = ' '.join(ctx['seq'])
+        return c
+
+    def prefer(self, ctx):
+        out = []
+        for n, v in ctx['env'].items():
+            out += [v != 0, z3.And(v >= 2, v <= 13), z3.IsInt(v)]
+        e = ctx['env']
+        out += [e['a'] != e['b'], e['b'] != e['c'], e['a'] != e['c']]
+        return out
+
+    def _text(self, inputs):
+        vals = {n: frac_text(Fraction(inputs.get(n, 1))) for n in ('a', 'b', 'c', 'd')}
+        return ' '.join(vals.get(t, t) for t in inputs['seq'].split(' '))
+
+    def native(self, inputs, label):
+        return [{'mode': 'query', 'text': self._text(inputs)}]
+
+    def judge(self, inputs, label, obs):
+        q = obs[0]
+        if q.get('outcome') == 'panic' or q.get('render_panic'):
+            return True, '`%s` panics: %s' % (self._text(inputs), q.get('panic') or q.get('render_panic'))
+        # concrete oracle with exact fractions
+        env = {n: z3.RealVal(str(Fraction(inputs.get(n, 1)))) for n in ('a', 'b', 'c', 'd')}
+        o = Oracle(inputs['seq'].split(' '), env)
+        want = z3.simplify(o.expr())
+        defined = z3.simplify(z3.And(*o.defined)) if o.defined else z3.BoolVal(True)
+        got = obs_number_json(q)
+        if z3.is_false(defined):
+            return (got is not None), '`%s` should be an error, got %s' % (self._text(inputs), got)
+        wv = Fraction(want.numerator_as_long(), want.denominator_as_long()) if z3.is_rational_value(want) else None
+        return (got is None or wv is None or got[0] != wv), '`%s` = %s, manual precedence gives %s' % (self._text(inputs), got, wv)
+
+
+_lex_h = harnesses
+
+
+def harnesses(tier):   # noqa: F811
+    hs = _lex_h(tier) + [Precedence(3, 'parser.precedence.3_operands'), Precedence(2, 'parser.precedence.unary_minus', unary=True)]
+    if tier == 'thorough':
+        hs.append(Precedence(4, 'parser.precedence.4_operands'))
+    return hs
